@@ -601,7 +601,7 @@ theorem declaredOf_typed (getInt : Obj → Except Err Int) (hg : TypedGetInt get
     split at he
     · cases he
     · cases he
-    · cases he; exact Or.inr rfl
+    · cases he
     · rename_i e' hne1 hne2 hget
       rcases this e' hget with rfl | rfl
       · exact absurd rfl hne2
